@@ -29,7 +29,8 @@ class PiKey(SSEKey):
 
     @classmethod
     def deserialize(cls, xbytes: bytes, config: PiConfig):
-        if len(xbytes) != config.param_k:
+        # KeyGen draws param_lambda bytes (param_k is the length of the per-keyword keys inside a token)
+        if len(xbytes) != config.param_lambda:
             raise ValueError("The length of xbytes must be the same as the length of the parameter param_lambda.")
 
         return cls(xbytes)
